@@ -49,7 +49,9 @@ class GenericSDE(nn.Module):
         self.hW, self.hb = P(d, d, scale=0.5), P(d, scale=0.3)
         nt = self.noise_type
         if nt == "diagonal":
-            self.ga = nn.Parameter(0.6 + 0.4 * torch.rand(d, generator=gen, dtype=dtype))
+            # components of either sign (a diffusion coefficient need not be positive), bounded away from zero
+            sign = torch.where(torch.rand(d, generator=gen, dtype=dtype) < 0.4, -1.0, 1.0).to(dtype)
+            self.ga = nn.Parameter((0.6 + 0.4 * torch.rand(d, generator=gen, dtype=dtype)) * sign)
             self.gb, self.gc, self.ge = P(d, scale=0.3), P(d, scale=0.9), P(d, scale=0.9)
         elif nt == "additive":
             self.G0, self.G1 = P(d, m, scale=0.7), P(d, m, scale=0.5)
